@@ -57,7 +57,7 @@ def all_events():
         for ver in VERSIONS:
             for label, name in name_menu(kind, ver):
                 evs.append({"kind": kind, "ver": ver, "name_kind": label, "name": name, "props": "valid"})
-            for pv in ("digit-prop", "ref-not-ref", "refs-not-list", "valid-ref", "upper-prop"):
+            for pv in ("digit-prop", "ref-not-ref", "refs-not-list", "valid-ref", "upper-prop", "nonascii-lower-prop", "micro-sign-prop", "underscore-first-prop", "hyphen-prop"):
                 evs.append({"kind": kind, "ver": ver, "name_kind": "fresh-a", "name": "x-verif-a" + ("-ext" if kind == "extension" else ""), "props": pv})
     for flavour in ("prop", "top"):
         evs.append({"kind": "extension", "ver": "2.1", "name_kind": "extdef-" + flavour, "name": EXTDEF[flavour], "props": "valid", "extension_type":
@@ -99,7 +99,7 @@ def name_rule(name, kind, ver):
 def props_rule(pv, kind, ver):
     if pv in ("valid", "valid-ref"):
         return "valid"
-    if pv in ("digit-prop", "upper-prop"):
+    if pv in ("digit-prop", "upper-prop", "nonascii-lower-prop", "micro-sign-prop", "underscore-first-prop", "hyphen-prop"):
         return "invalid" if ver == "2.1" else "either"
     return "invalid"           # *_ref / *_refs named properties that are not reference properties
 
@@ -113,6 +113,9 @@ def build_props(ev):
         return [("prop", P.StringProperty()), ("1prop", P.StringProperty())]
     if pv == "upper-prop":
         return [("prop", P.StringProperty()), ("Prop", P.StringProperty())]
+    if pv in ("nonascii-lower-prop", "micro-sign-prop", "underscore-first-prop", "hyphen-prop"):
+        # 2.1 property names: a-z first, then a-z 0-9 _ only (ASCII)
+        return [("prop", P.StringProperty()), ({"nonascii-lower-prop": "\u00f1ame", "micro-sign-prop": "\u00b5_value", "underscore-first-prop": "_prop", "hyphen-prop": "my-prop"}[pv], P.StringProperty())]
     if pv == "ref-not-ref":
         return [("prop", P.StringProperty()), ("foo_ref", P.StringProperty())]
     if pv == "refs-not-list":
@@ -298,6 +301,20 @@ def probes(model, part, case, touched):
                     if (strict, flag) != want:
                         fail("C19/not-version-scoped/reference-to-%s-name/%s" % ("registered" if known else "unregistered", rk.split(".")[0].split(" ")[-1]),
                              "a reference to a custom type name is not judged by the registry of the referring object's own spec version", list(want), [strict, flag], [cat, name, ver, rk])
+            if cat == "observables" and ver == "2.1" and cls is not None and err is None:
+                # the same name through parse() of a document that carries an id but no spec_version (optional on observables) and with no version named: detection must know the name
+                for how, mk in (("parse(dict)", lambda: stix2.parse({"type": name, "id": "%s--%s9" % (name, UA), "prop": "v"}, allow_custom=False)),
+                                ("parse(text)", lambda: stix2.parse(json.dumps({"type": name, "id": "%s--%s9" % (name, UA), "prop": "v"}), allow_custom=False)),
+                                ("bundle-member", lambda: stix2.parse({"type": "bundle", "id": "bundle--%s9" % UA, "objects": [{"type": name, "id": "%s--%s9" % (name, UA), "prop": "v"}]}, allow_custom=False).objects[0])):
+                    part.transitions += 1
+                    try:
+                        r2 = mk()
+                        g2 = type(r2).__name__ if isinstance(r2, _STIXBase) else "dict"
+                    except (X.STIXError, ValueError, TypeError) as e:
+                        r2, g2 = None, "%s: %s" % (type(e).__name__, str(e)[:100])
+                    if type(r2) is not cls:
+                        fail("C19/not-exact/observables/registered-name-not-detected-without-spec_version", "a registered 2.1 observable name is not recognised when the document has an id but no spec_version",
+                             cls.__name__, g2, [cat, name, ver, how])
             if cls is not None:
                 part.outcome("probe-registered:" + ("resolves" if got is cls else "wrong"))
                 if got is not cls:
